@@ -63,10 +63,10 @@ P['C16'] = {
 _BLOCK_ASSUME = [
     'the stream-API contract of units/stream_prelude.vx abstracts stream.rs + circular_buffer.rs as seen by one block (read_buf returns any extension of the pending input, write_buf any window not shorter than the space already seen); its data and tag clauses are derived from the ring unit\'s contracts by the refinement theorems in units/ring/unit.vx; trusted: that the shim methods ARE those operations (Arc, mutex atomicity, mmap aliasing) and the single-producer/single-consumer environment clause',
     'each block invariant is established by the block constructor (fresh streams, initial fields) -- constructors are not under contract (they call new_stream / are macro-generated)',
-    'the derive-generated work() loop of sync blocks and everything else the macro generates is NOT verified (C19 n/a)',
+    'the derive-generated work() of fourteen in-crate sync blocks is verified from the macro expansion (unit synclib: step accounting, clamp, wait target, tag transfer, call-site preconditions; kernels as signatures); the other in-crate derive users have only the bounded stand-ins',
 ]
 _NOT_COVERED_BLOCKS = [
-    'derive-generated sync work() (Tee, Add, Xor, AddConst, XorConst, NrziDecode, Descrambler, SinglePoleIirFilter, QuadratureDemod, BinarySlicer, convert ...): only BOUNDED drip-feed stand-ins (bx:sync, bx:dsp), never counted as proved; their per-sample kernels are under contract in unit kernels / Kani',
+    'derive-generated sync work(): proved from the macro expansion for Tee, FloatToComplex, BinarySlicer, ComplexToMag2, NrziDecode, Descrambler, CorrelateAccessCode, QuadratureDemod, FastFM, Xor, XorConst, Add, AddConst, MultiplyConst (unit synclib; the VALUES are the kernels\' business); for the remaining derive users (Map, SinglePoleIirFilter, BurstTagger, CorrelateAccessCodeTag, convert ...) only BOUNDED drip-feed stand-ins (bx:sync, bx:dsp), never counted as proved; their per-sample kernels are under contract in unit kernels / Kani',
     'FftFilterFloat::work (drives two private streams itself): bounded only (bx:dsp)',
     'IL2P header codec (LFSR, RS stripping, field parsing) is a trusted predicate; which single-bit repair HDLC bit fixing picks is an uninterpreted function of (payload, FCS) (A-PURE)',
     'ToText: bounded only (bx:totext); PduWriter, DebugSink and the other sinks/sources not listed under functions',
@@ -77,14 +77,14 @@ _NOT_COVERED_BLOCKS = [
 _BU = ['skip', 'delay', 'vsrc', 'v2s', 'consts', 'resampler', 'rtlsdr', 's2pdu', 'hilbert', 'fftstream', 'fftfilter']
 _FIR = ['fir']
 P['C08'] = {
-    'units': list(_BU) + _FIR + ['zc', 'symsync', 'il2p', 'hdlc', 'bx:sync', 'bx:dsp', 'bx:totext'],
+    'units': list(_BU) + _FIR + ['zc', 'symsync', 'il2p', 'hdlc', 'synclib', 'bx:sync', 'bx:dsp', 'bx:totext'],
     'technique': 'Verus: each covered work() proved to preserve out.produced == F(in.consumed) under a stream-API contract with a universally quantified environment (any window lengths)',
     'level_text': 'Deductive proof, no bound, for the blocks listed under functions (Skip, Delay, VectorSource, VecToStream, ConstantSource, NullSink, RationalResampler, FirFilter, RtlSdrDecode, StreamToPdu, Hilbert, FftStream, FftFilter, ZeroCrossing, SymbolSync, Il2pDeframer, HdlcDeframer): the invariant (state, dst.produced) == F(src.consumed) holds after every work() call for every read-window extension and every write-window length, hence for every chunking, every amount of free output space (incl. full) and every wrap position; no panic site in those bodies is reachable. Float arithmetic inside F is uninterpreted. Sync blocks generated by the derive macro and FftFilterFloat are covered by BOUNDED differential runs only (bit-identical output of a roomy run and an adversarial drip-fed run of the same millions of samples), labelled bounded.',
     'level_note': 'Subset; see coverage.not_covered. Trusted: stream-API contract (stream_prelude.vx), std shims, determinism of float operations. Where F is spelled out (clock recovery step, PDU rule, resampler rule, overlap-add) a behaviour change that keeps chunk independence still fails the contract and must be accompanied by a contract update.',
     'not_covered': _NOT_COVERED_BLOCKS, 'assumptions': _BLOCK_ASSUME,
 }
 P['C09'] = {
-    'units': list(_BU) + _FIR + ['zc', 'symsync', 'il2p', 'sigmf', 'hdlc', 'fsrc', 'fsink', 'tcp', 'au', 'auenc', 'misc', 'bx:sync', 'bx:dsp'],
+    'units': list(_BU) + _FIR + ['zc', 'symsync', 'il2p', 'sigmf', 'hdlc', 'fsrc', 'fsink', 'tcp', 'au', 'auenc', 'misc', 'synclib', 'bx:sync', 'bx:dsp'],
     'technique': 'Verus: call-site preconditions of consume/produce (n <= window, window belongs to the stream, not stale) and verdict postconditions on each covered work()',
     'level_text': 'Deductive proof for the covered work() bodies: every consume/produce call site stays within its window and uses a window of that stream; WaitForStream(s, need) is returned only when stream s offered fewer than need in this call (so the wait names the blocking stream and asks for what is missing); Again only from a call that made progress; an empty input yields a wait on the input; EOF only when the data is exhausted. No window escapes work() (syntactic check of rule X-WIN). Bounded only: wait truthfulness of sync blocks by timing (bx:sync), Again-means-progress of the float blocks (bx:dsp).',
     'level_note': 'Subset only. "holds no window after return" is a syntactic check of the extractor, stated as such.',
@@ -98,14 +98,14 @@ P['C10'] = {
     'not_covered': _NOT_COVERED_BLOCKS, 'assumptions': _BLOCK_ASSUME,
 }
 P['C12'] = {
-    'units': ['ring', 'skip', 'delay', 'vsrc', 'v2s', 'fir', 'hilbert', 'fftfilter', 'kernels', 'bx:sync', 'bx:dsp'],
+    'units': ['ring', 'skip', 'delay', 'vsrc', 'v2s', 'fir', 'hilbert', 'fftfilter', 'kernels', 'synclib', 'bx:sync', 'bx:dsp'],
     'technique': 'Verus: caller-against-callee check of the stream contract tag.pos < n at every produce() call site + tag-transfer clause of each block invariant',
     'level_text': 'Deductive proof for a stated subset: (a) every produce(n, tags) call site in covered bodies establishes tag.pos < n (the precondition Buffer::produce carries in unit ring); (b) the tag-transfer clause of each invariant: identity after the skip (Skip), shift by the delay (Delay), index / deci for consumed samples only (FirFilter), same index for processed samples only (Hilbert), every tag of a consumed sample either out on its own sample or held with its block (FftFilter), marker tags once per repetition (VectorSource), start/end per packet (VecToStream), correlator and burst tags exactly on their sample (kernels). Bounded only: tag forwarding of the generated sync loop (bx:sync) and of FftFilterFloat / float sync blocks (bx:dsp: each tag once at the same index in a roomy and a drip-fed run).',
     'level_note': 'Subset only; see coverage.not_covered.',
     'not_covered': _NOT_COVERED_BLOCKS, 'assumptions': _BLOCK_ASSUME,
 }
 P['C15'] = {
-    'units': ['skip', 'delay', 'v2s', 'fir', 'resampler', 'rtlsdr', 's2pdu', 'hilbert', 'fftstream', 'fftfilter', 'zc', 'symsync', 'sigmf', 'wpcr', 'hdlc', 'crc', 'tcp', 'au', 'auenc', 'il2p', 'kani:lfsr', 'kani:hdlc', 'kani:codecs', 'bx:dsp'],
+    'units': ['skip', 'delay', 'v2s', 'fir', 'resampler', 'rtlsdr', 's2pdu', 'hilbert', 'fftstream', 'fftfilter', 'zc', 'symsync', 'sigmf', 'wpcr', 'hdlc', 'crc', 'tcp', 'au', 'auenc', 'il2p', 'synclib', 'kani:lfsr', 'kani:hdlc', 'kani:codecs', 'bx:dsp'],
     'technique': 'Verus panic-freedom obligations (refuse/overflow/bounds/callee preconditions unreachable for arbitrary sample values) + Kani totality harnesses over all input bytes',
     'level_text': "Deductive proof for the covered bodies: no panic site (slice index, unwrap, overflow, division, assert where it is an obligation) is reachable for any sample / byte / burst / file content: the block bodies listed under functions, AuDecode header arithmetic, HdlcDeframer::update_state, SigMFSource::work (truncated and empty data), wpcr find_best_bin and Midpointer::work (every burst incl. empty, one element, constant, NaN), ZeroCrossing / SymbolSync index arithmetic on both outputs; Kani: bits2byte, calc_crc (lengths 1..2, thorough ..4), the codecs' parse for all bytes; the two LFSR steps for every input byte (2 known findings). Il2pDeframer::work index arithmetic and its two assert sites. Bounded only: float blocks (bx:dsp).",
     'level_note': "Subset only: SymbolSync's two assert!s on float ordering are treated as refusals (float reasoning, not decided), Wpcr::process_one and SigMF metadata / archive parsing are not under contract.",
@@ -122,7 +122,7 @@ P['C17'] = {
 }
 
 P['C19'] = {
-    'units': ['syncx'],
+    'units': ['syncx', 'synclib'],
     'technique': 'Verus function contracts on the code the derive macro GENERATES: rustc prints the macro expansion of derive users of every arity (vx/expand.py), the generated work / eof / new / process_sync_tags are cut from it and verified against the stream contract; loop invariants on the (desugared) per-sample loop',
     'level_text': 'Deductive proof, no bound on window lengths, tag counts or sample values, for eleven derive users covering 1..3 inputs x 1..3 outputs in sync mode (one of them stateful, with default / into / plain fields), two sync_tag users (one forwarding the tags of its SECOND input) and a new()-only user with a non-copy output: a call that returns Again took the same k >= 1 samples from every input and committed k to every output, k is exactly min(shortest input, smallest output space) (some stream is exhausted afterwards), output j sample i is process_sync of the inputs at i (for the stateful block: with the state after i earlier calls, so the kernel runs once per step, in order), the tags of the tag-source input reach every output exactly once on the same sample; WaitForStream names, with need 1, an input that is empty or an output that is full, and nothing moved; the generated assert_ne!s cannot fire; generated eof() is true only if every input has ended; generated new() stores the inputs it was given, pairs every output with a fresh stream and returns the read ends in declaration order, defaults / converts / stores the other fields.  The derive users must also COMPILE: a type error inside the derive expansion is reported as a violation with the failing program.',
     'level_note': 'The verified text is rustc\'s pretty-printed expansion of the token stream rustradio_macros produced from /repo\'s current tree -- not the macro source, and not a transcription.  Trusted: the desugaring of the lazy iterator pipeline into a counted loop (rule X-SYNCLOOP, DESIGN.md section 4: take / zip / enumerate / izip! semantics), fold-min (X-XPAND), the tag-filter shim tags_at, ReadStream::eof and new_stream as specifications, the stream contract.  When the expansion no longer has the shape the rules know, the unit is undecided and the bounded harness bx/syncx_harness.rs (same blocks, same obligations, concrete schedules) stands in.',
